@@ -275,7 +275,8 @@ def prox_log_sum(x, alpha, eps):
 @njit
 def _r2(x, alpha, eps):
     # compute r2 as in (eq. 7), ref [1] in `prox_log_sum`
-    return (x - eps) / 2. + np.sqrt(((x + eps) ** 2) / 4 - alpha)
+    # the radicand vanishes at x = 2 sqrt(alpha) - eps: clip the rounding error there
+    return (x - eps) / 2. + np.sqrt(max(((x + eps) ** 2) / 4 - alpha, 0.))
 
 
 @njit
